@@ -14,20 +14,21 @@ def W(binary, args, feat="std", profile="rel", **kw):
 
 
 def plan_c14(tier):
-    ws = []
-    profs = ["rel", "dbg"] if tier == "thorough" else ["rel"]
-    for prof in profs:
-        for par in ["even", "odd"]:
-            ws.append(W("bufmc", ["c14", "--tier", tier, "--parity", par], profile=prof))
+    if tier == "thorough":
+        ws = sharded("bufmc", "c14", "thorough", 16, ["rel", "dbg"], ["even", "odd"])
+    else:
+        ws = sharded("bufmc", "c14", "quick", 8, ["rel"], ["even", "odd"])
     return dict(
         workers=ws,
-        level="model_checking",
-        rule="complete finite universe: every ordered pair of byte strings of length <= 3 over {00,'a','b',ff} "
-             "(+ prefix/extension families up to length 8) x every representation of each crate-typed side x every "
+        level="model_checking", distinct_is_max=False,
+        rule="complete finite universe: every ordered pair of byte strings of length <= 3 (thorough: <= 4) over {00,'a','b',c3,a9,ff} "
+             "(c3 a9 is a two-byte UTF-8 scalar, so the str rows see non-ASCII text and the byte rows non-UTF-8 data; + prefix/extension families up to length 9, + strings of 256..70001 bytes) "
+             "x every representation of each crate-typed side (incl. aliased views into one buffer and split halves) x every "
              "PartialEq/PartialOrd/Ord/Hash/Borrow impl in both operand orders x 7 operators, each compared with [u8] "
              "semantics; a case is distinct+non-trivial = a distinct ordered pair of byte strings",
+        bounds="quick: 259+ strings (67 000+ ordered pairs), release profile, both parities; thorough: 1 555+ strings (2.4 M ordered pairs), release and debug profiles, both parities",
         assumptions=["std's slice comparison and hashing are the reference semantics",
-                     "strings longer than 8 bytes and alphabets beyond 4 symbols are not enumerated (comparison code is byte-value independent apart from ordering of the 4 symbols incl. 00 and ff)"],
+                     "strings longer than 4 bytes are covered by families only; alphabets beyond 6 symbols are not enumerated (comparison code is byte-value independent apart from the ordering of the symbols, which include 00 and ff)"],
         post=post_c14,
     )
 
@@ -48,17 +49,16 @@ def post_c14(ev, results):
 
 
 def plan_c15(tier):
-    ws = []
-    profs = ["rel", "dbg"] if tier == "thorough" else ["rel"]
-    for prof in profs:
-        for par in ["even", "odd"]:
-            ws.append(W("bufmc", ["c15", "--tier", tier, "--parity", par], feat="serde", profile=prof))
+    if tier == "thorough":
+        ws = sharded("bufmc", "c15", "thorough", 16, ["rel", "dbg"], ["even", "odd"], feat="serde")
+    else:
+        ws = sharded("bufmc", "c15", "quick", 8, ["rel"], ["even", "odd"], feat="serde")
     return dict(
         workers=ws,
-        level="model_checking",
-        rule="complete finite universe: all 256 one-byte strings, all byte pairs (thorough: all 65536; quick: every byte next "
-             "to every escape-relevant byte in both positions), all strings of length 3 (thorough: 4) over the escape-relevant alphabet, x "
-             "{Bytes, BytesMut} x representations; Debug parsed by an independent byte-string-literal parser, hex compared digit by digit, "
+        level="model_checking", distinct_is_max=False,
+        rule="complete finite universe: all 256 one-byte strings, all 65 536 byte pairs, all strings of length 3..4 (thorough: ..6) over the escape-relevant alphabet "
+             "{00,'0','\"','\\','\\n',7f,80,'x'} (thorough: + all strings of length 3 over a 24-symbol alphabet), every length 5..80 and a spread up to 70 001 in a position-coded, an all-escapes and "
+             "printable-with-one-escape pattern, x {Bytes, BytesMut} x representations; Debug parsed by an independent byte-string-literal parser, hex compared digit by digit, "
              "serde round trip through Bytes/BorrowedBytes/ByteBuf/Seq(4 hints)/Str/BorrowedStr/String tokens; distinct = distinct Debug outputs",
         assumptions=["the literal grammar is the one of the Rust reference (byte string literals)", "serde_test token streams stand for real (de)serializers"],
     )
